@@ -164,6 +164,11 @@ pub struct World {
     /// patches carry streams of the simulated, dictionary-sensitive codec instead of stored brotli
     #[serde(default)]
     pub sim_codec: bool,
+    /// the base font holds stale data for its glyphs (other bytes than the complete font; a 3-byte placeholder
+    /// where the complete font's glyph is empty), so patches replace - and blank - data the font already has;
+    /// in these worlds three in ten glyphs of the complete font are empty
+    #[serde(default)]
+    pub stale_base: bool,
 }
 
 /// Everything of a minimal CFF / CFF2 table that precedes the charstrings INDEX (which the IFT
@@ -242,6 +247,7 @@ impl World {
         } else {
             match r.below(10) {
                 0 => 0,
+                1 | 2 if self.stale_base => 0,
                 1 => 1,
                 2 => 2 + r.below(4) as usize,
                 3..=6 => 2 * (1 + r.below(30) as usize),
@@ -257,6 +263,22 @@ impl World {
         if let Some(l) = v.last_mut() {
             if *l == 0 {
                 *l = 0x5a;
+            }
+        }
+        v
+    }
+
+    /// Data of glyph `gid` in `table` as the base font holds it.
+    pub fn base_glyph_data(&self, table: &Tag4, gid: u32) -> Vec<u8> {
+        let mut v = self.glyph_data(table, gid, 0);
+        if self.stale_base {
+            if v.is_empty() {
+                v = vec![0x13, 0x37, 0x5a];
+            } else {
+                v[0] ^= 0x77;
+                if v.len() == 1 && v[0] == 0 {
+                    v[0] = 0x5a;
+                }
             }
         }
         v
@@ -309,9 +331,9 @@ impl World {
         let mut glyf = vec![Vec::new(); self.n_glyphs as usize];
         let mut gvar = if self.has_gvar { Some(vec![Vec::new(); self.n_glyphs as usize]) } else { None };
         for g in &self.base_gids {
-            glyf[*g as usize] = pad_even_if(&self.glyph_data(&self.outline_tag(), *g, 0), self.carrier == 0 && !self.loca_long);
+            glyf[*g as usize] = pad_even_if(&self.base_glyph_data(&self.outline_tag(), *g), self.carrier == 0 && !self.loca_long);
             if let Some(gv) = gvar.as_mut() {
-                gv[*g as usize] = pad_even_if(&self.glyph_data(&GVAR, *g, 0), !self.gvar_long);
+                gv[*g as usize] = pad_even_if(&self.base_glyph_data(&GVAR, *g), !self.gvar_long);
             }
         }
         let mut other = BTreeMap::new();
@@ -1203,7 +1225,7 @@ pub fn gen_world(rng: &mut Rng) -> World {
     let r0 = g.version(0, 0, has_gvar, two);
     let r1 = if two { Some(g.version(0, 1, has_gvar, true)) } else { None };
     let (versions, patches) = (g.versions, g.patches);
-    let mut w = World { n_glyphs, loca_long, has_gvar, gvar_long, data_seed, base_gids, big_gids, opaque, versions, roots: [Some(r0), r1], patches, carrier, cff_off_size0: 1, len_adjust: None, sim_codec: false };
+    let mut w = World { n_glyphs, loca_long, has_gvar, gvar_long, data_seed, base_gids, big_gids, opaque, versions, roots: [Some(r0), r1], patches, carrier, cff_off_size0: 1, len_adjust: None, sim_codec: false, stale_base: false };
     if w.carrier != 0 {
         let tag = w.outline_tag();
         for p in w.patches.iter_mut() {
@@ -1248,7 +1270,8 @@ pub fn gen_world(rng: &mut Rng) -> World {
         }
     }
     // the base font itself must be well formed: short offsets only if the base data fits them
-    let base_total = |w: &World, t: &Tag4| -> usize { w.base_gids.iter().map(|g| { let l = w.glyph_data(t, *g, 0).len(); l + l % 2 }).sum() };
+    w.stale_base = w.carrier == 0 && w.len_adjust.is_none() && rng.chance(1, 4);
+    let base_total = |w: &World, t: &Tag4| -> usize { w.base_gids.iter().map(|g| { let l = w.base_glyph_data(t, *g).len(); l + l % 2 }).sum() };
     if !w.loca_long && base_total(&w, &GLYF) > 0xFFFF * 2 {
         w.loca_long = true;
     }
